@@ -48,6 +48,10 @@ func main() {
 		os.Exit(debugGramRule(os.Args[2], os.Args[3:]))
 	case "gramdump":
 		os.Exit(debugGramDump(os.Args[2], os.Args[3:]))
+	case "scan":
+		os.Exit(debugScan(os.Args[2:]))
+	case "scanprobe":
+		os.Exit(debugScanProbe(os.Args[2:]))
 	case "replay":
 		os.Exit(runReplay(os.Args[2:]))
 	default:
